@@ -80,6 +80,10 @@ def classify(key, f):
     return ("skipped", "unique", "repeated")[n]
 
 
+def year_start_us(y):
+    return to_us(_dt.datetime(y, 1, 1, tzinfo=_dt.timezone.utc))
+
+
 def naive_us(f):
     return to_us(_dt.datetime(*f, tzinfo=_dt.timezone.utc))
 
